@@ -39,6 +39,7 @@ type procRun struct {
 	err        error
 	pending    *gateMsg
 	swept      bool // the interruption of this attempt was already realised (amplified) at its start
+	idem       bool // its Commit found the very manifest it wanted already installed by the other client
 	cleanup    func()
 }
 
@@ -510,13 +511,19 @@ func (e *engine) procStep(st map[string]any, a, p, res string, args map[string]a
 			}
 			delete(e.run, p)
 		case "ok":
-			if a == "TEdit" && (run.pending == nil || run.pending.kind != "cas") {
+			if a == "TEdit" && !run.idem && (run.pending == nil || run.pending.kind != "cas") {
 				return e.gateMismatch(a, "blocked at ChunkStore.Commit", run, where(run))
 			}
 		}
 		w.evals++
 		return after()
 	case "TCas":
+		if run != nil && run.idem {
+			if res != "ok" {
+				return common.Fail(e.step, a, "compare-and-swap after an idempotent success", res, "the real call already returned success")
+			}
+			return after()
+		}
 		if run == nil || run.pending == nil || run.pending.kind != "cas" {
 			return e.gateMismatch(a, "blocked at ChunkStore.Commit", run, where(run))
 		}
@@ -531,7 +538,14 @@ func (e *engine) procStep(st map[string]any, a, p, res string, args map[string]a
 		if len(lg) != n0+1 {
 			return common.Fail(e.step, a, "ChunkStore.Commit", "one call reaching the store", fmt.Sprint(lg))
 		}
-		if lg[n0] != (res == "ok") {
+		if lg[n0] && res == "retry" {
+			// content addressing: when the other client has just installed EXACTLY the root (and table files) this client was
+			// about to install, a NomsBlockStore finds the manifest it wanted already in place and reports success without a
+			// retry round. The model retries and then installs the same root: same state either way (and a lost update of the
+			// other client would show in the refs compared after the following steps).
+			run.idem = true
+			e.crit["idempotent_cas"]++
+		} else if lg[n0] != (res == "ok") {
 			return common.Fail(e.step, a, "result of the compare-and-swap on the store root", res, fmt.Sprint(lg[n0]))
 		}
 		w.evals++
